@@ -193,6 +193,31 @@ def run(ctx, tier):
                               with_scalar=repr(_norm(base))[:200], with_0d_array=repr(_norm(alt))[:200], second_call=repr(_norm(alt2))[:200],
                               callers_array_modified=bool(changed), monitor="replay", case=None)
     ctx.hit("replay_zero_dim_array_calls", nz)
+    # phase 1i: a flag argument is judged by its truth value: numpy.bool_ (an element of a comparison such as (dfs == 17)[i])
+    # and the ints 0 / 1 mean what False / True mean (`if flag is True:` only knows the two singletons)
+    nf = 0
+    if np is not None:
+        for i in order[:4000]:
+            fn, a, k, want = rec[i]
+            ia = [j for j, x in enumerate(a) if type(x) is bool]
+            ik = [j for j, x in k.items() if type(x) is bool]
+            if not ia and not ik:
+                continue
+            base = probe.call(fn, *_copy(a), **_copy(k))
+            for conv, label in ((np.bool_, "numpy.bool_"), (int, "int")):
+                a2, k2 = list(_copy(a)), dict(_copy(k))
+                for j in ia:
+                    a2[j] = conv(a[j])
+                for j in ik:
+                    k2[j] = conv(k[j])
+                alt = probe.call(fn, *a2, **k2)
+                ctx.ev(2)
+                if repr(_norm(alt)) != repr(_norm(base)):
+                    ctx.violation("flag-argument-judged-by-identity-not-truth:" + _name(fn).split(".")[-1], function=_name(fn), args=repr(a)[:300],
+                                  kwargs=repr(k)[:200], with_bool=repr(_norm(base))[:200], flag_type=label, with_other_flag_type=repr(_norm(alt))[:200],
+                                  monitor="replay", case=None)
+            nf += 1
+    ctx.hit("replay_flag_type_calls", nf)
     # phase 1c: each call preceded by a few calls taken from the workloads of ALL properties (another decoder's early
     # return or exception path may leave a module-level setting behind)
     cpath = os.environ.get("PMV_CORPUS")
